@@ -270,3 +270,152 @@ Proof.
   assert (L : (Z.of_N v <=? min)%Z = false) by (apply Z.leb_gt; lia).
   rewrite L. reflexivity.
 Qed.
+
+(* ---- soundness for every accepted string; leading-zero octal ---- *)
+
+Lemma parse_uint0_bb : forall s, s <> [] ->
+  parse_uint0 s =
+    let '(base, body) := base_body s in
+    match parse_loop base true body 0 false with
+    | (UOk n, us) => if us && negb (underscore_ok s) then UErr ESyntax else UOk n
+    | (UErr e, _) => UErr e
+    end.
+Proof. intros s H. destruct s; [congruence | reflexivity]. Qed.
+
+Lemma base_body_range : forall s b body, base_body s = (b, body) -> 0 < b /\ b <= 16.
+Proof.
+  intros s b body H. unfold base_body in H.
+  destruct s as [|c0 r0]; [inversion H; subst; lia|].
+  destruct (c0 =? 48); [|inversion H; subst; lia].
+  destruct r0 as [|c1 [|c2 r2]]; try (inversion H; subst; lia).
+  destruct (lower c1 =? 98); [inversion H; subst; lia|].
+  destruct (lower c1 =? 111); [inversion H; subst; lia|].
+  destruct (lower c1 =? 120); inversion H; subst; lia.
+Qed.
+
+Lemma no_us_cons : forall c s,
+  no_underscores (c :: s) = if c =? 95 then no_underscores s else c :: no_underscores s.
+Proof. intros c s. unfold no_underscores. cbn [filter]. destruct (c =? 95); reflexivity. Qed.
+
+Lemma loop_sound : forall b, 0 < b -> b <= 16 -> forall s n us r us',
+  parse_loop b true s n us = (UOk r, us') -> n < two64 ->
+  digits_in b (no_underscores s) = true /\
+  r = fold_left (stepb b) (no_underscores s) n /\ r < two64.
+Proof.
+  intros b Hb Hb16. induction s as [|c s IH]; intros n us r us' H Hn.
+  - cbn [parse_loop] in H. inversion H; subst. repeat split; auto.
+  - rewrite parse_loop_cons_dv in H. rewrite no_us_cons.
+    destruct (c =? 95) eqn:E95; cbn [andb] in H.
+    + eapply IH; eauto.
+    + destruct (digit_val c) as [d|] eqn:Ed; try discriminate.
+      destruct (b <=? d) eqn:Eb; try discriminate.
+      destruct (maxu64 / b + 1 <=? n) eqn:Ec; try discriminate.
+      destruct (((n * b + d) mod two64 <? n * b) || (maxu64 <? (n * b + d) mod two64)) eqn:Eo;
+        try discriminate.
+      apply orb_false_iff in Eo. destruct Eo as [E1 E2].
+      apply N.leb_gt in Eb. apply N.leb_gt in Ec. apply N.ltb_ge in E1.
+      assert (Hnb : n * b <= maxu64).
+      { pose proof (N.mul_div_le maxu64 b) as Hm.
+        assert (b * n <= b * (maxu64 / b)) by (apply N.mul_le_mono_l; lia).
+        lia. }
+      assert (Hmod : (n * b + d) mod two64 = n * b + d).
+      { pose proof (N.div_mod (n * b + d) two64 two64_nz) as Hdm.
+        pose proof (N.mod_lt (n * b + d) two64 two64_nz) as Hml.
+        remember ((n * b + d) mod two64) as m. remember ((n * b + d) / two64) as q.
+        clear Heqm Heqq. unfold two64 in *. unfold maxu64 in *. lia. }
+      rewrite Hmod in H.
+      assert (Hs : n * b + d < two64).
+      { rewrite <- Hmod. apply N.mod_lt. apply two64_nz. }
+      destruct (IH _ _ _ _ H Hs) as [Hd [Hr Hlt]].
+      change (digits_in b (c :: no_underscores s)) with
+        ((match digit_val c with Some d => d <? b | None => false end)
+           && digits_in b (no_underscores s)).
+      change (fold_left (stepb b) (c :: no_underscores s) n)
+        with (fold_left (stepb b) (no_underscores s) (stepb b n c)).
+      assert (Hx : stepb b n c = n * b + d) by (unfold stepb; rewrite Ed; reflexivity).
+      rewrite Hx, Ed, Hd.
+      assert (Hdb : d <? b = true) by (apply N.ltb_lt; lia).
+      rewrite Hdb. repeat split; auto.
+Qed.
+
+Theorem parse_uint0_sound : forall s n, parse_uint0 s = UOk n ->
+  exists b body, base_body s = (b, body) /\
+    digits_in b (no_underscores body) = true /\ n = base_val b (no_underscores body) /\ n < two64.
+Proof.
+  intros s n H.
+  destruct s as [|c0 r0]; [discriminate H|].
+  rewrite parse_uint0_bb in H by discriminate.
+  destruct (base_body (c0 :: r0)) as [b body] eqn:EB.
+  exists b, body. split; auto.
+  destruct (base_body_range _ _ _ EB) as [Hb Hb16].
+  destruct (parse_loop b true body 0 false) as [[r|e] us'] eqn:EL; try discriminate.
+  apply (loop_sound b Hb Hb16) in EL; [|vm_compute; reflexivity].
+  destruct EL as [Hd [Hr Hlt]].
+  destruct (us' && negb (underscore_ok (c0 :: r0))); inversion H; subst.
+  repeat split; auto.
+Qed.
+
+Lemma pod_of_parse : forall s v min, s <> [] -> parse_uint0 s = UOk v ->
+  (min < Z.of_N v < 9223372036854775808)%Z ->
+  parse_or_default s min = EnvValue (Z.of_N v).
+Proof.
+  intros s v min Hne HP Hv.
+  destruct s as [|c0 r0]; [congruence|].
+  assert (Hv64 : v < two64) by (unfold two64; lia).
+  unfold parse_or_default. rewrite HP. cbv zeta.
+  assert (HT : to_int64 v = Z.of_N v).
+  { unfold to_int64. cbv zeta. rewrite (N.mod_small _ _ Hv64).
+    assert (C : v <? 9223372036854775808 = true) by (apply N.ltb_lt; lia).
+    rewrite C. reflexivity. }
+  rewrite HT.
+  assert (L : (Z.of_N v <=? min)%Z = false) by (apply Z.leb_gt; lia).
+  rewrite L. reflexivity.
+Qed.
+
+Lemma octal_digit_lower : forall c d, digit_val c = Some d -> d < 8 ->
+  (lower c =? 98) = false /\ (lower c =? 111) = false /\ (lower c =? 120) = false.
+Proof.
+  intros c d H Hd. unfold digit_val in H.
+  destruct ((48 <=? c) && (c <=? 57)) eqn:E.
+  - apply andb_true_iff in E. destruct E as [E1 E2].
+    apply N.leb_le in E1. apply N.leb_le in E2.
+    inversion H; subst. clear H.
+    assert (Hc : c = 48 \/ c = 49 \/ c = 50 \/ c = 51 \/ c = 52 \/ c = 53 \/ c = 54 \/ c = 55)
+      by lia.
+    clear E1 E2 Hd.
+    repeat (destruct Hc as [Hc|Hc]); subst; vm_compute; repeat split; reflexivity.
+  - destruct ((97 <=? lower c) && (lower c <=? 122)); [|discriminate].
+    inversion H; subst. exfalso. lia.
+Qed.
+
+Lemma base_body_octal : forall c r d, digit_val c = Some d -> d < 8 ->
+  base_body (48 :: c :: r) = (8, c :: r).
+Proof.
+  intros c r d H Hd. destruct r as [|c2 r2]; [reflexivity|].
+  destruct (octal_digit_lower c d H Hd) as [E1 [E2 E3]].
+  unfold base_body. change (48 =? 48) with true. cbv beta iota.
+  rewrite E1, E2, E3. reflexivity.
+Qed.
+
+Theorem env_octal_accepted : forall ds min, ds <> [] -> digits_in 8 ds = true -> (0 <= min)%Z ->
+  (min < Z.of_N (base_val 8 ds) < 9223372036854775808)%Z ->
+  parse_or_default (48 :: ds) min = EnvValue (Z.of_N (base_val 8 ds)).
+Proof.
+  intros ds min Hne Hall Hmin Hv.
+  destruct ds as [|c r]; [congruence|]. clear Hne.
+  assert (Hc : exists d, digit_val c = Some d /\ d < 8).
+  { change (digits_in 8 (c :: r)) with
+      ((match digit_val c with Some d => d <? 8 | None => false end) && digits_in 8 r) in Hall.
+    apply andb_true_iff in Hall. destruct Hall as [Ha _].
+    destruct (digit_val c) as [d|]; [|discriminate].
+    exists d. split; auto. apply N.ltb_lt; auto. }
+  destruct Hc as [d [Ed Hd]].
+  assert (Hdv : base_val 8 (c :: r) = fold_left (stepb 8) (c :: r) 0) by reflexivity.
+  remember (base_val 8 (c :: r)) as v eqn:Ev. clear Ev.
+  assert (Hv64 : v < two64) by (unfold two64; lia).
+  apply pod_of_parse; [discriminate| |auto].
+  rewrite parse_uint0_bb by discriminate.
+  rewrite (base_body_octal c r d Ed Hd). cbv beta iota.
+  rewrite (loop_base 8); [| reflexivity | auto | rewrite <- Hdv; auto].
+  cbn [andb]. rewrite <- Hdv. reflexivity.
+Qed.
